@@ -263,7 +263,7 @@ Section Natives.
   Theorem native_sort_correct_on keyfn cb s p tb :
     nth_error (st_heap s) p = Some tb -> wf_table tb ->
     pure_cb_on P host two_args keyfn cb ->
-    (forall args, key_valid (cb args) = true) ->
+    (forall e, In e tb -> key_valid (key_by_cb of_key cb e) = true) ->
     exists s',
       runs P host (TkNative n_sort [VTable p; keyfn]) s (ok [VTable (length (st_heap s))] empty_env s') /\
       st_heap s' = st_heap s ++ [spec_sorted (sort_lt (st_heap s)) (key_by_cb of_key cb) tb] /\
@@ -303,7 +303,7 @@ Section Natives.
       + split.
         * intros a b Da Db. apply sort_lt_asym; assumption.
         * intros a b c Da Db Dc. apply sort_lt_cotrans; assumption.
-      + rewrite Forall_map. apply Forall_forall. intros e _. cbn [fst]. apply Hval.
+      + rewrite Forall_map. apply Forall_forall. intros e He. cbn [fst]. apply Hval. exact He.
     - split; cbn [st_globals st_log set_heap]; [apply (ext_globals _ _ X1) | apply (ext_log _ _ X1)].
   Qed.
 
@@ -363,7 +363,7 @@ Section Natives.
       runs P host (TkNative n_sort [VTable p; keyfn]) s (ok [VTable (length (st_heap s))] empty_env s') /\
       st_heap s' = st_heap s ++ [spec_sorted (sort_lt (st_heap s)) (key_by_cb of_key cb) tb] /\
       same_world s s'.
-  Proof. intros Hp Hwf Hcb. apply native_sort_correct_on; auto using pure_cb_two. Qed.
+  Proof. intros Hp Hwf Hcb Hval. apply native_sort_correct_on; auto using pure_cb_two. intros e _. apply Hval. Qed.
 
   Theorem native_minmax_correct name keyfn cb s p tb :
     name = n_min \/ name = n_max ->
